@@ -415,7 +415,7 @@ def build_master(rnd, kind, is_default, glyphs, opts, name):
                             "layout": "GPOS" in fb.font, "adv": {g: metrics[g][0] for g in order}}
 
 
-def make(rnd, kind="ttf", naxes=None, maps=True, rules=False, sparse=True, grid=False, layout=True, n_extra=None):
+def make(rnd, kind="ttf", naxes=None, maps=True, rules=False, sparse=True, grid=False, layout=True, n_extra=None, twin=False):
     from fontTools.designspaceLib import DesignSpaceDocument, AxisDescriptor, SourceDescriptor, RuleDescriptor
     from fontTools.ttLib import TTFont
 
@@ -485,7 +485,21 @@ def make(rnd, kind="ttf", naxes=None, maps=True, rules=False, sparse=True, grid=
                         "sparse": info["sparse"], "pairs": info["pairs"], "layout": info["layout"],
                         "is_default": is_default, "adv": info["adv"], "adv_sentinel": sentinel,
                         "partial_location": len(loc) < len(design)})
-    if rules:
+    twin_axes = []
+    if rules and twin:
+        # two rules on *different* axes with the *same* normalised range [t, 1] and different substitutions
+        pos = [a for a in axes if a["default"] < a["max"]]
+        if len(pos) >= 2:
+            t = rnd.choice([0.5, 0.25, 0.75])
+            for k, (a, sub) in enumerate(zip(rnd.sample(pos, 2), (("A", "A.alt"), ("E", "O")))):
+                dd, dm = _fwd(a, a["default"]), _fwd(a, a["max"])
+                rd = RuleDescriptor()
+                rd.name = "twin%d" % k
+                rd.conditionSets = [[dict(name=a["name"], minimum=dd + t * (dm - dd), maximum=dm)]]
+                rd.subs = [sub]
+                ds.addRule(rd)
+                twin_axes.append(a["tag"])
+    if rules and not twin_axes:
         for k in range(rnd.randrange(1, 3)):
             a = rnd.choice(axes)
             lo_u, hi_u = sorted([rnd.uniform(a["min"], a["max"]), rnd.uniform(a["min"], a["max"])])
@@ -502,4 +516,4 @@ def make(rnd, kind="ttf", naxes=None, maps=True, rules=False, sparse=True, grid=
             rd.subs = [("A", "A.alt")]
             ds.addRule(rd)
     return {"ds": ds, "masters": masters, "axes": axes, "kind": kind, "opts": opts,
-            "marks": list(MARKS), "bases": list(BASES)}
+            "marks": list(MARKS), "bases": list(BASES), "twin_axes": twin_axes}
